@@ -156,7 +156,8 @@ def run_case(case):
                    'no-release-after-timeout', classes)
     if case['double'] and case['stall_ms'] * 2 < CONN_TIMEOUT_MS:
         r2 = run_once(case, case['stall_ms'] * 2)
-        if r2['stalled'] and r2['overrun'] != r['overrun']:
+        # +-2 is measurement jitter (which periodic re-request falls inside the window); growth with the stall length is what is forbidden
+        if r2['stalled'] and any(r2['overrun'][e] > r['overrun'].get(e, 0) + 2 for e in r2['overrun']):
             return bad(f'overrun depends on the stall length: {r["overrun"]} for {case["stall_ms"]} ms, {r2["overrun"]} for {case["stall_ms"] * 2} ms', 'overrun-grows-with-stall', classes)
         classes.append('metamorphic: stall doubled')
     classes.append(f'overrun {worst}')
